@@ -219,6 +219,7 @@ func sweepCallerFrames(p *Prog, pc *PropConfig, tags string, r *checkResult) {
 	}
 	sort.Slice(entries, func(i, j int) bool { return entries[i].String() < entries[j].String() })
 	npaths := 0
+	cycSeen := map[string]bool{}
 	var walk func(path []*ssa.Function, sites []ssa.CallInstruction)
 	walk = func(path []*ssa.Function, sites []ssa.CallInstruction) {
 		cur := path[len(path)-1]
@@ -241,6 +242,14 @@ func sweepCallerFrames(p *Prog, pc *PropConfig, tags string, r *checkResult) {
 				}
 			}
 			if cyc {
+				// a call cycle among the functions between the user's statement and runtime.Caller makes
+				// the number of zerolog frames depend on the input: no constant skip can be right
+				key := cur.String() + " -> " + e.to.String()
+				if !cycSeen[key] {
+					cycSeen[key] = true
+					fv.oblige("frames", "recursion "+shortFn(cur)+" -> "+shortFn(e.to), nil, e.site.Pos(), "false",
+						"no function on a path from a user entry to (*Event).caller calls back into that path: "+shortFn(cur)+" calls "+shortFn(e.to)+", which is already on the stack, so the frame distance to the user's statement varies with the input")
+				}
 				continue
 			}
 			walk(append(append([]*ssa.Function{}, path...), e.to), append(append([]ssa.CallInstruction{}, sites...), e.site))
